@@ -126,6 +126,16 @@ func corpus() []*pair {
 		corpusOp("Length", "", lst(n(1).Mark(m1))),
 
 		// conversion: pass-throughs, nulls, unknowns, nested marks, set targets
+		// F-152: the marks of a null member survive every conversion that keeps the member (the conversions that strip
+		// optional-attribute annotations from a null member's type rebuilt it from the type alone)
+		corpusConv(cty.List(cty.Number), lst(cty.NullVal(cty.String).Mark(m1), s("1"))),
+		corpusConv(cty.Set(cty.String), lst(cty.NullVal(cty.String).Mark(m1), s("1"))),
+		corpusConv(cty.Set(cty.Number), tup(cty.NullVal(cty.String).Mark(m2), s("1"))),
+		corpusConv(cty.Object(map[string]cty.Type{"a": cty.Number, "b": cty.Number}), mp("a", cty.NullVal(cty.String).Mark(m3), "b", s("1"))),
+		corpusConv(cty.Object(map[string]cty.Type{"a": cty.Number, "b": cty.Number}), obj("a", cty.NullVal(cty.String).Mark(m1), "b", s("1"))),
+		corpusConv(cty.List(cty.List(cty.Number)), lst(lst(cty.NullVal(cty.String).Mark(m2)))),
+		corpusConv(cty.List(cty.DynamicPseudoType), lst(cty.NullVal(cty.String).Mark(m1), s("1"))),
+		corpusConv(cty.List(cty.Set(cty.String)), lst(cty.NullVal(cty.List(cty.String)).Mark(m3))),
 		corpusConv(cty.String, n(1).Mark(m1)),
 		corpusConv(cty.Number, cty.NullVal(cty.String).Mark(m1)),
 		corpusConv(cty.Number, cty.UnknownVal(cty.String).Mark(m1)),
